@@ -55,6 +55,10 @@ def _ch():
     return _CH
 
 
+class HarnessOutOfDate(BaseException):
+    """a white-box part of a harness no longer matches the implementation: reported as a harness error (exit 3)"""
+
+
 class AssumeFailed(Exception):
     """Raised by assume() in native mode."""
 
